@@ -57,6 +57,18 @@ pub fn run(rec: &mut Recorder, thorough: bool, seed: u64) {
             observe(rec, &[vec![data[..cut1].to_vec()], vec![data[cut1..cut2].to_vec()], vec![data[cut2..].to_vec()]]);
         }
     }
+    // every total piece length 0..600 (quick: 0..300 and every 7th above), as one fragment and split in two,
+    // placed at a varying position among three pieces
+    let mut l = 0usize;
+    while l <= 600 {
+        let b = rng.bytes(l);
+        observe(rec, &[vec![b.clone()]]);
+        let cut = rng.below(l + 1);
+        let mut pieces = vec![vec![rng.bytes(3)], vec![rng.bytes(5)], vec![rng.bytes(2)]];
+        pieces[l % 3] = vec![b[..cut].to_vec(), b[cut..].to_vec()];
+        observe(rec, &pieces);
+        l += if thorough || l < 300 { 1 } else { 7 };
+    }
     // fragmentations of one fixed piece list (fragment-invariance)
     let lens = [0usize, 1, 7, 8, 255, 256, 600];
     let reps = if thorough { 600 } else { 120 };
